@@ -51,7 +51,11 @@ func (m *Manager) HeaderStoreRetrieveLoop(ctx context.Context) {
 					continue
 				}
 				m.logger.Debug("header retrieved from p2p header sync", "headerHeight", header.Height(), "daHeight", daHeight)
-				m.headerInCh <- NewHeaderEvent{header, daHeight}
+				select {
+				case <-ctx.Done():
+					return
+				case m.headerInCh <- NewHeaderEvent{header, daHeight}:
+				}
 			}
 		}
 		lastHeaderStoreHeight = headerStoreHeight
@@ -95,7 +99,11 @@ func (m *Manager) DataStoreRetrieveLoop(ctx context.Context) {
 				}
 				// TODO: remove junk if possible
 				m.logger.Debug("data retrieved from p2p data sync", "dataHeight", d.Metadata.Height, "daHeight", daHeight)
-				m.dataInCh <- NewDataEvent{d, daHeight}
+				select {
+				case <-ctx.Done():
+					return
+				case m.dataInCh <- NewDataEvent{d, daHeight}:
+				}
 			}
 		}
 		lastDataStoreHeight = dataStoreHeight
